@@ -46,6 +46,25 @@ func BuildBaseKey(baseDir string) []string {
 	return keys
 }
 
+// MergeDirKeys appends to keys the languages that only a per-directory result names
+func MergeDirKeys(keys []string, outputFiles []string) []string {
+	for _, filePath := range outputFiles {
+		for _, key := range BuildBaseKey(filePath) {
+			known := false
+			for _, k := range keys {
+				if k == key {
+					known = true
+					break
+				}
+			}
+			if !known {
+				keys = append(keys, key)
+			}
+		}
+	}
+	return keys
+}
+
 func CreateClocDir() error {
 	os.Mkdir(config.CocaConfig.ReporterPath, os.ModePerm)
 	return os.Mkdir(config.CocaConfig.ReporterPath+"/cloc/", os.ModePerm)
